@@ -15,7 +15,8 @@ LEVEL_TEXT = ("Held on every generated bit array / DNA string / number of this r
               "the thorough tier). Sampled; the contracts also fire on the internal uses by encode, decode, set_vt and repair_dna.")
 LEVEL_NOTE = ("Trusts Python int. The integer path is driven with Python ints / lists (documented types; number_to_bit rejects "
               "numpy integers by design), the string path also with numpy arrays as encode passes them.")
-PLAN = {"quick": dict(shards=16, budget=40), "thorough": dict(shards=16, budget=300)}
+PLAN = {"quick": dict(shards=17, budget=40), "thorough": dict(shards=17, budget=300)}
+SPECIAL_SHARD = True  # the last shard runs files of the repository's own suite in-process under the contracts
 RULE = ("bit arrays / DNA strings of the widths above in the classes all-zero, all-one, leading zeros, single 1, random; numbers "
         "0, 1, 2^L-1 (4^L-1), random below capacity: number_to_bit(bit_to_number(b), len(b)) == b, number_to_dna(dna_to_number(s)"
         ", len(s)) == s, is_string=True and False give the same value, number_to_bit(x, L) / number_to_dna(x, L) for x below "
@@ -98,6 +99,9 @@ def _symbols(rng, L, kind, base):
 
 def generate(ctx):
     rng = ctx.rng
+    if ctx.special:
+        yield "repo_tests", dict(files=ctx.pick(['tests/test_number_vs_binary_message.py', 'tests/test_number_vs_dna_sequence.py'], ['tests/test_number_vs_binary_message.py', 'tests/test_number_vs_dna_sequence.py', 'tests/test_coding.py', 'tests/test_generating.py']))
+        return
     widths = WIDTHS + ctx.pick([300, 1000], [1000, 2000, 4096])
     for _ in range(ctx.pick(400, 3000)):
         L = rng.choice(widths if rng.random() < 0.97 else widths[-1:])
@@ -236,12 +240,28 @@ def check_via_library(ctx, case):
     ctx.done("via_library", case, True)
 
 
-CHECKS = {"bits": check_bits, "dna": check_dna, "number_bits": check_number_bits, "number_dna": check_number_dna,
+def check_repo_tests(ctx, case):
+    """The repository's own tests, in-process, with this property's contracts installed."""
+    from vlib.coding import run_repo_tests
+    rc, n = run_repo_tests(ctx, case["files"])
+    ctx.mon("contract-evaluations-inside-repo-tests", n)
+    if rc is None:
+        ctx.cls("repo-tests|missing")
+        return
+    ctx.cls("repo-tests|run")
+    if rc != 0:
+        ctx.fail("repo-tests-under-contracts", "pytest exit %s on %s with the contracts installed (a contract fired inside the repository's own tests, or a test failed)" % (rc, case["files"]))
+    ctx.done("repo_tests", case, n > 0)
+
+
+CHECKS = {"repo_tests": check_repo_tests, "bits": check_bits, "dna": check_dna, "number_bits": check_number_bits, "number_dna": check_number_dna,
           "via_library": check_via_library}
 
 
 def floors(agg, tier):
     out = []
+    if agg["monitors"].get("contract-evaluations-inside-repo-tests", 0) < (10 if tier == "quick" else 10):
+        out.append("repository tests ran %d contract evaluations" % agg["monitors"].get("contract-evaluations-inside-repo-tests", 0))
     c, m = agg["classes"], agg["monitors"]
     for fn in ("bit_to_number", "number_to_bit", "dna_to_number", "number_to_dna"):
         key = [x for x in m if x.startswith("contract-evaluations:%s." % fn)]
